@@ -258,6 +258,19 @@ def run(rep, tier, seed, model_ok=True, effort=1):
             if x[7] is False:
                 rep.violation("the pattern derived for the config file's own current_version line does not match that line (%s[%s,%s])" % (x[0], x[1], x[2]), input=inp, **{"class": "self-pattern-no-match"})
         rep.sample(dict(version_pattern=c["version_pattern"], commit=c["commit"], tag=c["tag"], push=c["push"], files=len(c["files"])))
+    # TOML: a current_version written without quotes is a number, not a version string: the configuration is refused -- or, if it is read,
+    # to the text that stands in the file (2020.1100 is not 2020.11)
+    for fmt_, sec_ in (("bumpver.toml", "bumpver"), ("pyproject.toml", "tool.bumpver")):
+        d_ = tempfile.mkdtemp(prefix="bvcfg_", dir=project.SCRATCH)
+        try:
+            open(os.path.join(d_, fmt_), "w").write('[%s]\ncurrent_version = 2020.1100\nversion_pattern = "YYYY.BUILD"\n\n[%s.file_patterns]\n"%s" = ["current_version = {version}"]\n' % (sec_, sec_, fmt_))
+            c_, o_, e_ = impl.run_cli(["show", "--no-fetch"], cwd=d_)
+            cur_ = next((l.split("Current Version: ", 1)[1].strip() for l in o_.splitlines() if l.startswith("Current Version: ")), None)
+            rep.case(("toml-number-version", fmt_), nontrivial=True)
+            if c_ == 0 and cur_ != "2020.1100":
+                rep.violation("an unquoted TOML current_version (a number) is read as %r; the file says 2020.1100" % cur_, input=dict(config=fmt_, text="current_version = 2020.1100", show_exit=c_, current=cur_), **{"class": "settings-differ"})
+        finally:
+            shutil.rmtree(d_, ignore_errors=True)
     # a glob entry that covers several files -- in the TOML formats also the config file itself, which carries its own current_version entry:
     # every format reads the entry to the same (file, pattern) pairs for the other files, and `update` rewrites them alike
     outcomes = {}
